@@ -24,6 +24,7 @@ struct Plan {
     /// (slots, cycles, mode: 0 plain, 1 subtree bursts, 2 rotating fresh companions)
     w3: Vec<(usize, u64, u8)>,
     c13: u64,
+    w3_tok: u64,
 }
 
 fn plan(prop: &str, tier: &str, scale: f64) -> Plan {
@@ -37,6 +38,7 @@ fn plan(prop: &str, tier: &str, scale: f64) -> Plan {
         w2_n: n,
         w3: Vec::new(),
         c13: 0,
+        w3_tok: 0,
     };
     match prop {
         "C06" => {
@@ -44,17 +46,17 @@ fn plan(prop: &str, tier: &str, scale: f64) -> Plan {
             p.w1_large /= 2;
             p.w2_n = 0;
             p.w3 = if thorough {
-                vec![(1, 200_000, 0), (2, 140_000, 0), (4, 300_000, 1), (7, 500_000, 1), (3, 70_000, 0), (1, 80_000, 2)]
+                vec![(1, 200_000, 0), (2, 140_000, 0), (4, 300_000, 1), (7, 500_000, 1), (3, 70_000, 0), (1, 80_000, 2), (1, 80_000, 3)]
             } else {
-                vec![(1, 70_000, 0), (4, 140_000, 1), (2, 70_000, 0), (1, 36_000, 2)]
+                vec![(1, 70_000, 0), (4, 140_000, 1), (2, 70_000, 0), (1, 36_000, 2), (1, 36_000, 3)]
             };
         }
         "C07" => {
             p.w2_n = if thorough { 7 } else { 6 };
             p.w3 = if thorough {
-                vec![(1, 70_000, 0), (4, 280_000, 1), (5, 200_000, 0), (1, 70_000, 2), (2, 140_000, 2)]
+                vec![(1, 70_000, 0), (4, 280_000, 1), (5, 200_000, 0), (1, 70_000, 2), (2, 140_000, 2), (1, 70_000, 3), (2, 140_000, 3)]
             } else {
-                vec![(1, 40_000, 0), (3, 100_000, 1), (1, 36_000, 2)]
+                vec![(1, 40_000, 0), (3, 100_000, 1), (1, 36_000, 2), (1, 36_000, 3)]
             };
         }
         "C09" | "C10" | "C14" => {
@@ -65,6 +67,9 @@ fn plan(prop: &str, tier: &str, scale: f64) -> Plan {
         "C08" | "C11" => {
             p.w1_small /= 2;
             p.w2_n = 0;
+            if prop == "C08" {
+                p.w3_tok = if thorough { 140_000 } else { 40_000 };
+            }
         }
         "C12" => {
             p.w1_small /= 2;
@@ -127,6 +132,7 @@ enum Item {
     W2(usize, bool, Variant),
     W3(usize, u64, u8),
     C13(u64),
+    W3Tok(u64),
 }
 
 struct Shared {
@@ -236,7 +242,7 @@ fn main() {
             let parts: Vec<&str> = w.split(|c| c == '-' || c == '@').collect();
             let slots: usize = parts.get(1).and_then(|s| s.trim_end_matches("slots").parse().ok()).unwrap_or(1);
             let cycles: u64 = parts.get(2).and_then(|s| s.trim_end_matches("cycles").parse().ok()).unwrap_or(70_000);
-            let sub: u8 = if w.contains("-subtree") { 1 } else if w.contains("-companions") { 2 } else { 0 };
+            let sub: u8 = if w.contains("-companions-subtree") { 3 } else if w.contains("-companions") { 2 } else if w.contains("-subtree") { 1 } else { 0 };
             let rseed = meta.get("seed").and_then(|s| s.parse().ok()).unwrap_or(seed);
             let ctx = Ctx { seed: rseed, ..ctx.clone() };
             run_w3(&ctx, slots, cycles, sub, &mut cov)
@@ -290,6 +296,7 @@ fn main() {
     }
     if args.iter().any(|a| a == "--no-w3") {
         pl.w3.clear();
+        pl.w3_tok = 0;
     }
     let mut items: Vec<Item> = Vec::new();
     let shapes = if pl.w2_n > 0 { w2_items(pl.w2_n) } else { Vec::new() };
@@ -306,6 +313,9 @@ fn main() {
     }
     for (s, c, t) in &pl.w3 {
         items.push(Item::W3(*s, *c, *t));
+    }
+    if pl.w3_tok > 0 {
+        items.push(Item::W3Tok(pl.w3_tok));
     }
     // interleave the many small histories behind the few long items
     for i in 0..pl.w1_small {
@@ -396,6 +406,7 @@ fn main() {
                         },
                         Item::W3(s, c, t) => run_w3(&ctx, *s, *c, *t, &mut cov),
                         Item::C13(idx) => run_c13(&ctx, *idx, &mut cov),
+                        Item::W3Tok(c) => run_w3_tok(&ctx, *c, &mut cov),
                     });
                     match r {
                         Ok(Some(v)) => {
